@@ -54,6 +54,8 @@ type kindT struct {
 	Masked bool `json:"masked"`
 	// Inc: the subscription carries the include predicate "the value is odd"
 	Inc bool `json:"inc"`
+	// Pid: a single-item subscription (PullID) on the first id
+	Pid bool `json:"pid"`
 }
 type stepT struct {
 	A string `json:"a"`
@@ -403,6 +405,9 @@ func (t target) pull(ctx context.Context, k kindT) subscription {
 	}
 	if t.val != nil {
 		return subscription{vch: t.val.Pull(ctx, ro...)}
+	}
+	if k.Pid {
+		return subscription{vch: t.coll.PullID(ctx, ids[1], ro...)}
 	}
 	return subscription{cch: t.coll.Pull(ctx, ro...)}
 }
@@ -784,7 +789,13 @@ func main() {
 		} else {
 			o := runForced(c)
 			o.lookAgain()
-			if !c.Attack && (o.Drift != "" || o.Problem != "") {
+			pid := false
+			for _, k := range c.Kinds {
+				pid = pid || k.Pid
+			}
+			// (a single-item subscription subscribes from a goroutine of its own, which the gates do not hold:
+			//  its runs leave the schedule by construction and are judged free-running)
+			if !c.Attack && !pid && (o.Drift != "" || o.Problem != "") {
 				bad++
 			}
 			out.Write(o)
